@@ -74,7 +74,7 @@ variable {F S : Type}
 def cellK (env : Gen.K16c.parseBoolMap_Env F S) (row : List Bool) (i : Int) (b : S) (j : Nat) : Res S :=
   match row[j]? with
   | none => .error oob
-  | some true => .ok (env.bits_Set b ((j : Nat) : Int) i)
+  | some true => .ok (env.BitMatrix_Set b ((j : Nat) : Int) i)
   | some false => .ok b
 
 /-- one row: `imageI := image[i]`, then `width` cells -/
@@ -101,7 +101,7 @@ theorem parse_loops (env : Gen.K16c.parseBoolMap_Env F S) (image : List (List Bo
             tryC (idxA imageI j) fun t4 =>
             let bits :=
               if t4 then
-                let bits := env.bits_Set bits j i
+                let bits := env.BitMatrix_Set bits j i
                 bits
               else
                 bits
@@ -164,7 +164,7 @@ theorem k_parseBoolMap_eq (ops : NumOps F) (env : Gen.K16c.parseBoolMap_Env F S)
     stays in it; `Set` on an existing matrix of the right size never panics, Properties/C16) -/
 def wmEnv : Gen.K16c.parseBoolMap_Env F (Res WMat) where
   NewBitMatrix := fun w h => (WMat.new w.toNat h.toNat, decide (w < 1 ∨ h < 1))
-  bits_Set := fun s x y => s.bind fun m => m.set x.toNat y.toNat
+  BitMatrix_Set := fun s x y => s.bind fun m => m.set x.toNat y.toNat
 
 /-- the model's run so far and the kernel's: the same matrix, or both failed (the model stops at a failed `Set`, the kernel carries it) -/
 def Sim (mr : Res WMat) (kr : Res (Res WMat)) : Prop :=
